@@ -956,6 +956,40 @@ theorem interlace_places_pixels (i : Img) (c : Nat) (hc : 0 < c) (hbpp : i.ihdr.
   intro y _
   rw [List.flatMap_def]
 
+/-- the same, pixel by pixel: the `n`-th stored pixel of the interlaced image is the original's pixel at
+    the `n`-th coordinates of the specification's Adam7 order - so the interlacing change keeps every
+    pixel (C01's clause for the layout change), it only moves it where the specification says -/
+theorem interlace_stored_pixels (i : Img) (c : Nat) (hc : 0 < c) (hbpp : i.ihdr.bpp = 8 * c)
+    (hw : 1 ≤ i.ihdr.width) (hil : i.ihdr.interlaced = false)
+    (hlen : i.data.length = i.ihdr.height * (i.ihdr.width * c)) :
+    (interlaceImage i).map (fun j => chunksExact c j.data) =
+      some ((adam7Order i.ihdr.width i.ihdr.height).map fun xy =>
+        pixelAt c ((chunksExact (i.ihdr.width * c) i.data).getD xy.2 []) xy.1) := by
+  have hplace := interlace_places_pixels i c hc hbpp hw hil hlen
+  have hwc : 0 < i.ihdr.width * c := Nat.mul_pos hw hc
+  obtain ⟨_, hpl⟩ := flatten_chunksExact (i.ihdr.width * c) hwc i.ihdr.height i.data hlen
+  have hRlen := chunksExact_length (i.ihdr.width * c) hwc i.ihdr.height i.data hlen
+  cases hj : interlaceImage i with
+  | none => rw [hj] at hplace; simp at hplace
+  | some j =>
+    rw [hj] at hplace
+    simp only [Option.map_some, Option.some.injEq] at hplace ⊢
+    rw [hplace, List.flatMap_def]
+    apply chunksExact_flatten c hc
+    intro px hpx
+    obtain ⟨xy, hxy, rfl⟩ := List.mem_map.mp hpx
+    obtain ⟨x, y⟩ := xy
+    -- coordinates of the Adam7 order lie inside the image
+    unfold adam7Order at hxy
+    obtain ⟨k, _, hk⟩ := List.mem_flatMap.mp hxy
+    rw [mem_passCoords] at hk
+    have hx : x < i.ihdr.width := hk.1.1
+    have hy : y < i.ihdr.height := hk.2.1
+    have hyR : y < (chunksExact (i.ihdr.width * c) i.data).length := by omega
+    simp only
+    rw [getD_rows _ y hyR]
+    exact (pixelAt_getElem? c i.ihdr.width hc _ (hpl _ (List.getElem_mem hyR)) x 0 hx hc).2
+
 /-- Non-vacuity: a 3x2 RGB-8 image (c = 3) meets the hypotheses; its interlaced form differs from it
     and comes back. -/
 example :
